@@ -82,6 +82,21 @@ CHECKS.update({
    technique="Lean 4 theorems over all trees (error-log monotonicity) + injected-violation oracle + differential correspondence"),
 })
 
+CHECKS.update({
+ "C14": dict(category="proof",
+   text="PARTIAL PROOF. Proved about the printer port for all models: sortByModule is a total, transitive comparator whose ties share the name (unattributed first, then module, file, name) - sortByModule_total_preorder; for a modular model with distinct type names the printed order of the type definitions and hence the whole DSL text, for both values of the source-information option, is invariant under any permutation of the input type definitions - types_order_invariant, output_invariant_under_type_order (sorted-permutation uniqueness for the structural insertion sort); the printed order is sorted by that comparator - types_printed_sorted, relations_printed_sorted. Independence of Go map iteration / JSON key order holds by construction in the model (maps are key-sorted lists) and is what the correspondence and the shuffled-JSON / repeated-call oracles check of the code. Comment inertness (strip(print true m) = print false m, both parse alike) is oracle-only; its excluded point is the open finding KF-C14-newline-in-source-name.",
+   design_ref="DESIGN.md §6.14", note=PROOF_NOTE,
+   technique="Lean 4 theorems (sorting, total preorder) about a hand-written port + differential correspondence + shuffle/repeat oracles"),
+ "C16": dict(category="proof",
+   text="PARTIAL PROOF. Proved for every input: the comment pre-pass never adds lines and line i of the cleaned text is a prefix of line i of the input, so every (line, column) inside the text handed to ANTLR lies inside the input with the same coordinates, also when comments and blank lines precede it (clean_prefix, position_inside_input); the duplicate-relation error is logged at the start of the relationName context (listener_error_at_name). Not proved: that ANTLR's reported positions lie inside the text it was given and that token coordinates are where the text stands (runtime contract; bounds oracle on every rejected input, exact-position oracle against the renderer's marks for listener errors). The module-merge half is false of the code in three narrow classes recorded as open findings (line looked up by text search: prefix collision, substring column, non-canonical spacing); outside them file/line/column are compared with the renderer's marks, and the Lean port of line-numbers.go reproduces the code's answers everywhere (correspondence).",
+   design_ref="DESIGN.md §6.16", note=PROOF_NOTE,
+   technique="Lean 4 theorems about the pre-pass and listener ports + position oracles against an independent renderer + differential correspondence"),
+ "C17": dict(category="proof",
+   text="PARTIAL PROOF. Proved for every graph value of the port (gonum's multigraph modelled by its observable content): reversal keeps the nodes, flips every line keeping id/kind/label, toggles the direction and changes nothing else (reversed_flips); reversing twice restores the identical graph and the identical list of lines in DOT order (reversed_involutive, double_reversal_same_dot_lines); a path from a to b exists iff one exists from b to a in the reversed graph, for the declarative path relation (path_duality). Tied to the code by correspondence on node list, line list in DOT order, reversal, double reversal, all-pairs reachability matrix and cycle flags. Not proved: that gonum's PathExistsIn / the port's fuelled search decide the path relation (validated all-pairs), DOT text stability across builds, label lookup and the cycle-flag clause (oracles; gonum's DOT writer and Johnson cycle enumeration are parameters).",
+   design_ref="DESIGN.md §6.17", note=PROOF_NOTE,
+   technique="Lean 4 theorems about a hand-written graph model + differential correspondence + DOT/duality/lookup oracles"),
+})
+
 NOT_YET = {}
 
 def main():
